@@ -193,6 +193,11 @@ class RefSolver(object):
         if pf.get("die_after_cmd") == self.cmd_no:
             self._fire("die_after_reply")
             self.dead = True
+        dan = pf.get("die_after_name")
+        if dan and dan[0] == name and dan[1] == nth:
+            # the process exits right after this reply: the peer's NEXT write meets a closed pipe
+            self._fire("die_after_reply")
+            self.dead = True
         return reply
 
     def _ok(self):
@@ -290,7 +295,7 @@ class RefSolver(object):
             sort, fn = self._compile(sx[1], {})
             if sort != BOOL:
                 raise Illegal("asserted term has sort %s" % (sort,))
-            self.levels[-1].asserts.append((show(sx[1]), fn))
+            self.levels[-1].asserts.append((show(sx[1]), fn, _symbols_in(sx[1])))
             self._state_change()
             return self._ok()
         if name == "reset-assertions":
@@ -365,7 +370,24 @@ class RefSolver(object):
             self.mode = "unknown"
             self.model = None
             return "unknown"
-        consts = self.live_consts()
+        # Only symbols that occur in a live assertion span the search space; a symbol that is
+        # merely declared is unconstrained and takes the first value of its domain (so that how
+        # much was declared - e.g. by a call that failed after its declarations - never decides
+        # whether the search space is within the row limit).
+        used = set()
+        for a in self.live_asserts():
+            used |= a[2]
+        defaults = {}
+        consts = []
+        for n, s in self.live_consts():
+            if n in used:
+                consts.append((n, s))
+            else:
+                d0 = self._domain(s)
+                if d0 is None:
+                    self.mode = "unknown"
+                    return "unknown"
+                defaults[n] = d0[0]
         doms = []
         rows = 1
         for n, s in consts:
@@ -384,6 +406,15 @@ class RefSolver(object):
             for n, (args, res) in lv.funs.items():
                 if not args:
                     continue
+                if n not in used:
+                    adoms0 = [self._domain(a) for a in args]
+                    rdom0 = self._domain(res)
+                    if rdom0 is None or any(d is None for d in adoms0):
+                        self.mode = "unknown"
+                        return "unknown"
+                    for tup in itertools.product(*adoms0):
+                        defaults[(n, tup)] = rdom0[0]
+                    continue
                 adoms = [self._domain(a) for a in args]
                 rdom = self._domain(res)
                 if rdom is None or any(d is None for d in adoms):
@@ -396,10 +427,11 @@ class RefSolver(object):
                     if rows > self.max_rows:
                         self.mode = "unknown"
                         return "unknown"
-        fns = [fn for _, fn in self.live_asserts()]
+        fns = [a[1] for a in self.live_asserts()]
         models = []
         for vals in itertools.product(*doms):
-            m = dict(zip(names, vals))
+            m = dict(defaults)
+            m.update(zip(names, vals))
             ok = True
             for fn in fns:
                 if not fn(m, {}):
@@ -766,6 +798,19 @@ class RefSolver(object):
         if op not in BUILTIN_OPS:
             raise Illegal("symbol %s used but not declared in scope" % op)
         raise Illegal("unknown or ill-sorted operator %s with argument sorts %s" % (op, sorts))
+
+
+def _symbols_in(sx):
+    """names of all symbols occurring in a term (over-approximation of its free symbols)"""
+    out = set()
+    stack = [sx]
+    while stack:
+        x = stack.pop()
+        if isinstance(x, list):
+            stack.extend(x)
+        elif isinstance(x, Sym):
+            out.add(x.name)
+    return out
 
 
 def _simple(name):
